@@ -7,7 +7,7 @@ PL=$(python3 -c "
 import sys; sys.path.insert(0,'scripts')
 from propcfg import PROPS
 for fl in ('plain','asan'):
-    hs=sorted({p['bin'] for c in PROPS.values() for p in c['parts'] if p.get('flavour','plain')==fl})
+    hs=sorted({b for c in PROPS.values() for p in c['parts'] if p.get('flavour','plain')==fl for b in [p['bin']]+c.get('extra_bins',[])})
     print(fl, ' '.join(hs))
 ")
 echo "$PL" | while read fl hs; do
